@@ -116,7 +116,7 @@ def slices_of(kind, X, cut):
 
 
 def well_conditioned(spec, X, cut):
-    if not spec["gauss"] or not spec["optimal"]:
+    if not spec["gauss"] or not (spec["optimal"] or spec["kind"] == "saving"):       # a saving contains the optimal-parameter cost as well
         return True
     for x in slices_of(spec["kind"], X, cut):
         xc = x - x.mean(axis=0)
